@@ -205,7 +205,7 @@ fn compiled_dedup_strategy(d: &Arc<vmodel::Decl>) -> BoxedStrategy<DedupCase> {
 
 pub fn run_c09(cx: &Cx) -> PropResult {
     let per_shard = cx.n(50_000, 1_500_000);
-    let compiled: Vec<Arc<vmodel::Decl>> = crate::props::derived::batch().all().into_iter().filter(|d| Ty::Adt(d.clone()).any(&|t| *t == Ty::Dedup)).collect();
+    let compiled: Vec<Arc<vmodel::Decl>> = crate::props::derived::batch().all().into_iter().filter(|d| crate::props::derived::compiled_ok(d) && Ty::Adt(d.clone()).any(&|t| *t == Ty::Dedup)).collect();
     let per_decl = cx.n(1_500, 30_000);
     let acc = parallel(cx, &|shard, acc| {
         for (i, d) in compiled.iter().enumerate() {
